@@ -321,6 +321,8 @@ func runC06(c *Ctx) {
 		ruleAlloc(c, p)
 		ruleRowsContract(c, p)
 		ruleRowsUsed(c, p, "C06.rowsused")
+		ruleLastIndex(c, p, "C06.lastindex")
+		ruleValidationLoops(c, p, "C06.validate")
 		c.R.Rule("C06.errors", "E6 (as C07.errors): every read error on the decode side reaches only failure exits - a swallowed error turns hostile input into a silently wrong (internally inconsistent) result")
 		nE := runErrDisc(c, p, p.Funcs(), errDiscOpts{Rule: "C06.errors", Class: readerClass(p), Exempt: isDoReceiverPacket})
 		c.R.Floor("C06.errors", cfg.Name, nE, 190)
@@ -1337,4 +1339,105 @@ func foldCondAt(cond, v ssa.Value, k int64) (bool, bool) {
 		return false, false
 	}
 	return r == pol, true
+}
+
+// ---- C06.lastindex
+// ruleLastIndex: x[n-1] only where n >= 1 is established.
+func ruleLastIndex(c *Ctx, p *core.Program, rule string) {
+	c.R.Rule(rule, "in the column decoders (DecodeColumn and the library functions they call), an element access x[n-1] - n being the row-count parameter or a len() - is reachable only through a test that establishes n >= 1 (n == 0 -> return, n > 0, n != 0, n >= 1, len(x) > 0 ... on the same quantity): a nested Array or Map value column is legally decoded with zero rows when every outer row is empty, and an unguarded last-element access then panics with index -1")
+	cfg := p.Cfg.Name
+	n := 0
+	seenFn := map[*ssa.Function]bool{}
+	var fns []*ssa.Function
+	for _, ct := range columnTypes(p) {
+		if fn := methodOf(p, ct, "DecodeColumn"); fn != nil && fn.Blocks != nil && !seenFn[fn] {
+			seenFn[fn] = true
+			fns = append(fns, fn)
+		}
+	}
+	sameQty := func(a, b ssa.Value) bool {
+		a, b = stripConv(a), stripConv(b)
+		if a == b {
+			return true
+		}
+		// two len() calls of the same field
+		la, ok1 := a.(*ssa.Call)
+		lb, ok2 := b.(*ssa.Call)
+		if ok1 && ok2 {
+			ba, oka := la.Call.Value.(*ssa.Builtin)
+			bb, okb := lb.Call.Value.(*ssa.Builtin)
+			if oka && okb && ba.Name() == "len" && bb.Name() == "len" {
+				pa, pb := accessPath(la.Call.Args[0], 0), accessPath(lb.Call.Args[0], 0)
+				return pa == pb && pa != "?" && !strings.Contains(pa, "local")
+			}
+		}
+		return false
+	}
+	for _, fn := range fns {
+		k := 0
+		for _, b := range fn.Blocks {
+			for _, in := range b.Instrs {
+				var idx ssa.Value
+				switch x := in.(type) {
+				case *ssa.IndexAddr:
+					idx = x.Index
+				case *ssa.Index:
+					idx = x.Index
+				default:
+					continue
+				}
+				sub, ok := stripConv(idx).(*ssa.BinOp)
+				if !ok || sub.Op != token.SUB {
+					continue
+				}
+				kc, okc := core.ConstInt(sub.Y)
+				if !okc || kc != 1 {
+					continue
+				}
+				q := stripConv(sub.X)
+				isLen := false
+				if cl, ok := q.(*ssa.Call); ok {
+					if bi, ok := cl.Call.Value.(*ssa.Builtin); ok && bi.Name() == "len" {
+						isLen = true
+					}
+				}
+				if _, isParam := q.(*ssa.Parameter); !isParam && !isLen {
+					continue // i-1 of a loop index etc.: not this rule
+				}
+				n++
+				k++
+				key := sprintf("%s/last#%d", core.FuncName(fn), k)
+				edges := core.CondEdges(fn, true, func(cond ssa.Value) (bool, bool) {
+					bo, ok := cond.(*ssa.BinOp)
+					if !ok {
+						return false, false
+					}
+					// predicate: quantity >= 1
+					if c0, okc := core.ConstInt(bo.Y); okc && sameQty(bo.X, q) {
+						switch {
+						case bo.Op == token.GTR && c0 == 0, bo.Op == token.GEQ && c0 == 1, bo.Op == token.NEQ && c0 == 0:
+							return true, true
+						case bo.Op == token.EQL && c0 == 0, bo.Op == token.LSS && c0 == 1, bo.Op == token.LEQ && c0 == 0:
+							return false, true
+						}
+					}
+					if c0, okc := core.ConstInt(bo.X); okc && sameQty(bo.Y, q) {
+						switch {
+						case bo.Op == token.LSS && c0 == 0, bo.Op == token.LEQ && c0 == 1, bo.Op == token.NEQ && c0 == 0:
+							return true, true
+						case bo.Op == token.EQL && c0 == 0, bo.Op == token.GTR && c0 == 1, bo.Op == token.GEQ && c0 == 0:
+							return false, true
+						}
+					}
+					return false, false
+				})
+				if len(edges) > 0 && core.OnlyViaEdges(fn, in, edges) {
+					c.R.Ok(rule, key, cfg, p.Pos(in.Pos()), "n >= 1 established before x[n-1]")
+				} else {
+					c.R.Bad(rule, key, cfg, p.Pos(in.Pos()), "x[n-1] is reachable with n = 0: decoding this column with zero rows (an inner column of all-empty outer rows) panics with index out of range [-1]")
+				}
+			}
+		}
+	}
+	c.R.Count("last-element accesses in decoders["+cfg+"]", n)
 }
